@@ -20,6 +20,15 @@ var c15codec = compression.New("snappy")
 
 func c15Payload(r *rand.Rand, n int, compressible bool) []byte {
 	b := make([]byte, n)
+	if compressible && r.Intn(3) == 0 {
+		// as compressible as it gets (snappy reaches about 21:1): one byte value,
+		// or one short cell repeated
+		pat := rbytes(r, []int{1, 1, 8, 68}[r.Intn(4)])
+		for i := range b {
+			b[i] = pat[i%len(pat)]
+		}
+		return b
+	}
 	if compressible {
 		pat := rbytes(r, 1+r.Intn(40))
 		for i := range b {
